@@ -3,6 +3,7 @@ package oracle
 import (
 	"fmt"
 	"math"
+	"math/rand"
 	"reflect"
 	"runtime/debug"
 
@@ -168,8 +169,101 @@ func corridorCase(prop string, seed int64, tier string, idx int) *core.Case {
 	if len(spec.Rects) > 0 && math.Mod(spec.Rects[0][2], 5) == 0 && math.Mod(spec.Rects[0][0], 5) == 0 && math.Mod(spec.Rects[0][3], 5) == 0 {
 		fam = "generated-grid"
 	}
+	if prop == "C19" && r.Intn(16) == 0 {
+		// the property ranges over all well-formed corridors, whatever their size: one power of two far outside the usual
+		// range (exact for these inputs) shows absolute thresholds in the orientation tests, trimming and funnel code
+		f := math.Ldexp(1, []int{-30, -24, -20, -10, 10, 20, 30}[r.Intn(7)])
+		for i := range spec.Rects {
+			for j := range spec.Rects[i] {
+				spec.Rects[i][j] *= f
+			}
+		}
+		spec.Start = [2]float64{spec.Start[0] * f, spec.Start[1] * f}
+		spec.End = [2]float64{spec.End[0] * f, spec.End[1] * f}
+		fam += "-scaled"
+	}
+	if prop == "C20" && r.Intn(8) == 0 {
+		// long runs that graze a corner: the corridor is enlarged (x8..x32, exact) and one wall is moved to within a
+		// fraction of a unit of the longest segment of the shortest path, where that segment crosses a band boundary
+		f := math.Ldexp(1, 3+r.Intn(3))
+		for i := range spec.Rects {
+			for j := range spec.Rects[i] {
+				spec.Rects[i][j] *= f
+			}
+		}
+		spec.Start = [2]float64{spec.Start[0] * f, spec.Start[1] * f}
+		spec.End = [2]float64{spec.End[0] * f, spec.End[1] * f}
+		fam += "-long-runs"
+		if pinchCorridor(r, &spec) {
+			fam += "-pinched"
+		}
+	}
 	return &core.Case{Prop: prop, Tier: tier, Seed: seed, Index: idx, Family: fam,
 		Corridor: &core.Corridor{Rects: spec.Rects, Start: spec.Start, End: spec.End, Kind: spec.Kind}}
+}
+
+// pinchCorridor moves one vertical wall of the corridor to a horizontal distance of 0.03..0.5 from the point where the
+// longest segment of the (reference) shortest path crosses a band boundary, on the side where the path does not go, so that
+// the path stays inside (the corridor only shrinks: the shortest path is unchanged) and grazes the new corner.
+func pinchCorridor(r *rand.Rand, spec *gen.CorridorSpec) bool {
+	scale := 0.0
+	for _, rc := range spec.Rects {
+		for _, v := range rc {
+			scale = math.Max(scale, math.Abs(v))
+		}
+	}
+	tol := 1e-9 * scale
+	_, path := model.ShortestPath(spec.Rects, spec.Start, spec.End, tol)
+	if len(path) < 3 {
+		return false
+	}
+	best, bl := -1, 0.0
+	for i := 1; i < len(path); i++ {
+		if l := math.Hypot(path[i][0]-path[i-1][0], path[i][1]-path[i-1][1]); l > bl {
+			best, bl = i, l
+		}
+	}
+	a, b := path[best-1], path[best]
+	if a[1] > b[1] {
+		a, b = b, a
+	}
+	dx := b[0] - a[0]
+	if dx == 0 || b[1] == a[1] {
+		return false
+	}
+	delta := []float64{0.03, 0.06, 0.1, 0.2, 0.5}[r.Intn(5)]
+	var cands []int
+	for i := 0; i+1 < len(spec.Rects); i++ {
+		if yb := spec.Rects[i][3]; yb > a[1] && yb < b[1] {
+			cands = append(cands, i)
+		}
+	}
+	r.Shuffle(len(cands), func(i, j int) { cands[i], cands[j] = cands[j], cands[i] })
+	for _, i := range cands {
+		yb := spec.Rects[i][3]
+		xb := a[0] + dx*(yb-a[1])/(b[1]-a[1])
+		saved := [2][4]float64{spec.Rects[i], spec.Rects[i+1]}
+		// above the boundary the path is on the side it comes from, below on the side it goes to
+		if (dx > 0) == (r.Intn(2) == 0) {
+			if dx > 0 {
+				spec.Rects[i][2] = math.Min(spec.Rects[i][2], xb+delta) // right wall of the upper rectangle
+			} else {
+				spec.Rects[i][0] = math.Max(spec.Rects[i][0], xb-delta) // left wall of the upper rectangle
+			}
+		} else {
+			if dx > 0 {
+				spec.Rects[i+1][0] = math.Max(spec.Rects[i+1][0], xb-delta) // left wall of the lower rectangle
+			} else {
+				spec.Rects[i+1][2] = math.Min(spec.Rects[i+1][2], xb+delta) // right wall of the lower rectangle
+			}
+		}
+		changed := spec.Rects[i] != saved[0] || spec.Rects[i+1] != saved[1]
+		if changed && model.WellFormed(spec.Rects, spec.Start, spec.End) == nil && model.PolylineInside(spec.Rects, path, tol) < 0 {
+			return true
+		}
+		spec.Rects[i], spec.Rects[i+1] = saved[0], saved[1]
+	}
+	return false
 }
 
 // callShortest invokes the real geom.Shortest through the verif export.
@@ -186,7 +280,7 @@ func callShortest(c *core.Corridor) (path [][2]float64, p *core.PanicInfo) {
 
 // checkShortest is the C19 oracle proper, shared with C20 and with the corridors captured from phase 5.
 func checkShortest(id string, c *core.Corridor, path [][2]float64) (Result, float64, []model.Pt) {
-	scale := 1.0
+	scale := 0.0 // no absolute floor: a corridor of size 1e-6 is judged with the same relative sharpness as one of size 100
 	for _, rc := range c.Rects {
 		for _, v := range rc {
 			scale = math.Max(scale, math.Abs(v))
@@ -225,13 +319,13 @@ func init() {
 		Title: "Corridor shortest path is shortest and stays inside",
 		Count: counts(60000, 1000000),
 		Rule: "generated well-formed corridors of 1..12 (12 %: 13..60) stacked rectangles; each next rectangle drawn from 9 offset patterns (same, equal left/right edge wider/narrower, " +
-			"widen both, narrow both, shift left/right); half grid-snapped to multiples of 5 (many equal edges), half dyadic; start/end kinds: outer boundary (what phase 5 passes), " +
+			"widen both, narrow both, shift left/right); half grid-snapped to multiples of 5 (many equal edges), half dyadic; 6 % scaled by one power of two in 2^-30 .. 2^30; start/end kinds: outer boundary (what phase 5 passes), " +
 			"boundary midpoint, interior, outer corner, vertical side; oracle: end points, containment per rectangle band, length vs visibility-graph Dijkstra; " +
 			"every tenth case instead lays out a graph with long edges using splines routing and judges the corridors phase 5 itself builds, captured through the public monitor; " +
 			"non-trivial = the reference shortest path bends (>= 3 points)",
 		MinNontrivial:    counts(5000, 80000),
 		DeathIsViolation: true,
-		Required:         []string{"shape:widen-both", "shape:narrow-both", "shape:shift-left", "shape:shift-right", "shape:same", "kind:corner", "kind:interior", "kind:boundary"},
+		Required:         []string{"shape:widen-both", "shape:narrow-both", "shape:shift-left", "shape:shift-right", "shape:same", "kind:corner", "kind:interior", "kind:boundary", "tiny_corridors", "huge_corridors"},
 		Assumptions: []string{
 			"well-formed corridor: positive widths/heights, rect i+1 starts where rect i ends, consecutive rects share a boundary segment of positive length",
 			"containment and length are compared with relative tolerance 1e-9",
@@ -253,6 +347,11 @@ func init() {
 			r.Nontrivial = len(refPath) >= 3
 			r.stat("rects", len(co.Rects))
 			r.stat("kind:"+kindClass(co.Kind), 1)
+			if ext := co.Rects[len(co.Rects)-1][3]; ext < 1e-2 {
+				r.stat("tiny_corridors", 1)
+			} else if ext > 1e5 {
+				r.stat("huge_corridors", 1)
+			}
 			for _, s := range shapesOf(co.Rects) {
 				r.stat("shape:"+s, 1)
 			}
